@@ -47,18 +47,20 @@ MayRefuse(x, k) ==
   \/ k = "__typename" /\ x.op = "subscription"        \* Oct 2021 5.2.3.1: not a valid subscription root field
 TypenameRequired(x) == \A k \in PKinds(x) : ~MayRefuse(x, k)
 
-TypenameInField(x, f, data) ==
+TypenameInField(x, f, data, rootName) ==
   LET k == KindOfName(x.op, f.name)
       v == Get(data, f.key)
-  IN CASE k = "__typename" -> v = Str(RootName(x.op))
-       [] k = "nested"     -> Get(v, "__typename") = Str(NestedType(RootName(x.op)))
-       [] k = "_entities"  -> v.k = "list" /\ Len(v.items) = 1 /\ Get(v.items[1], "__typename") = Str(TS.entity.type)
+  IN CASE k = "__typename" -> v = Str(rootName)
+       \* below a field __typename can only be judged where the parent object was produced
+       [] k = "nested"     -> v \in {Missing, Null} \/ Get(v, "__typename") = Str(NestedType(RootName(x.op)))
+       [] k = "_entities"  -> v \in {Missing, Null} \/ (v.k = "list" /\ \A n \in 1..Len(v.items) : v.items[n] = Null \/ Get(v.items[n], "__typename") = Str(TS.entity.type))
        [] OTHER -> TRUE
-TypenameOK(x) ==
+TypenameOKAs(x, rootName) ==
   LET fs == PFields(x) IN
   IF x.op = "subscription"
-  THEN \A i \in 1..Len(fs) : \E j \in 1..Len(x.obs.resps) : Get(x.obs.resps[j].data, fs[i].key) # Missing /\ TypenameInField(x, fs[i], x.obs.resps[j].data)
-  ELSE Len(x.obs.resps) = 1 /\ \A i \in 1..Len(fs) : TypenameInField(x, fs[i], x.obs.resps[1].data)
+  THEN \A i \in 1..Len(fs) : \A j \in 1..Len(x.obs.resps) : TypenameInField(x, fs[i], x.obs.resps[j].data, rootName)
+  ELSE Len(x.obs.resps) = 1 /\ \A i \in 1..Len(fs) : TypenameInField(x, fs[i], x.obs.resps[1].data, rootName)
+TypenameOK(x) == TypenameOKAs(x, RootName(x.op))
 
 Failures(x) ==
   (IF ~MetadataAllowed(x.s, x.r) /\ ObsMetaKeys(x) # {} THEN {"metadata"} ELSE {})
@@ -71,7 +73,7 @@ JoinSet(S) == IF S = {} THEN "" ELSE LET m == CHOOSE y \in S : TRUE IN
 
 Explained(x, D) ==
   /\ \A d \in D : Trigger(d, x, x.doc)
-  /\ "typename" \notin Failures(x)
+  /\ ("typename" \in Failures(x) => "DevStaticEmptyMutationTypename" \in D /\ TypenameOKAs(x, "EmptyMutation"))
   /\ ObsMetaKeys(x) \subseteq ModelMayServe(x, x.doc, D)
   /\ ObsLog(x) \subseteq ModelMayInvoke(x, x.doc, D)
 Verdict(x) ==
